@@ -18,4 +18,28 @@ CLAIMS = {
         "note": "Trusted: Lean kernel; the hand-written transcription of builder.rs (lean/VarproModel/Core/ProblemBuilder.lean) as validated by the decision table; "
                 "Rust harness + Lean driver; the initial cache of a built problem (residuals/coefficients at the model's parameters) is covered by the state stream of C01/C02.",
     },
+    "C15": {
+        "text": "Kernel-checked theorems over ALL call sequences: a recorded defect is final (c15_sticky, c15_bad_names_final), a defect inside a pending function "
+                "can only end in Err (c15_pending_defect_final), stray derivatives and wrong-length initial guesses are final defects with the documented payload. "
+                "The full acceptance language is specified independently (Core/ModelSpec.lean: grouping into items + first-order validity) and evaluated as a monitor on every case; "
+                "the transcription of the builder state machine is tied to the code by exhaustive enumeration of short call sequences and random long ones with exact comparison of Ok/variant/payload.",
+        "note": "Trusted: Lean kernel; transcription of src/model/builder/*.rs and detail.rs (Core/ModelBuilder.lean) as validated by the enumeration; harness + driver. "
+                "The theorem `accepts iff Valid` (language equality with the independent specification) is work in progress; until it is proved that equality is checked by the monitor on every explored session, not by the kernel.",
+    },
+    "C16": {
+        "text": "Kernel-checked: the stored closure calls the user function with the parameters looked up BY NAME in the function's own order and cannot panic (c16_args_by_name), "
+                "the value of a named parameter and hence every column is invariant under a simultaneous permutation of the model's parameter list and the parameter vector (c16_perm_param, c16_perm_invariant), "
+                "parameters are returned unchanged (c16_params), functions without a derivative for index k contribute the zero column (c16_zero_column); "
+                "source-derived obligation re-checked on every run: the arity dispatch table extracted from src/basis_function/detail.rs passes params[t] to argument t for arities exactly 1..10 (c16_dispatch). "
+                "Tie: exact comparison of every entry of eval / eval_partial_deriv on position-sensitive integer probes, all arities 1..10, every ordered subset for small models, against the model AND against the by-name specification.",
+        "note": "Trusted: Lean kernel; Core/SepModel.lean + Core/ModelBuilder.lean transcriptions as validated by the exact probe stream; tools/extract_dispatch.py (regex extraction; if the source cannot be parsed the obligation is reported as skipped). "
+                "The end-to-end refinement theorem builder-output = by-name specification is work in progress; it is checked per case by the monitor.",
+    },
+    "C17": {
+        "text": "Kernel-checked for EVERY model value, user-function semantics and argument: wrong parameter count is rejected with both lengths and leaves the model unchanged (c17_count, c17_rejected_state), "
+                "index >= P gives DerivativeIndexOutOfBounds (c17_index), successful evaluations have one column per basis function and one row per sample (c17_shape_eval, c17_shape_deriv), "
+                "a failing evaluation reports the error of the first failing column, a wrong length with expected and actual length (c17_wrong_len_eval, c17_len_error, mapCols_error). "
+                "Tie: misuse stream with exact comparison of values, error variants and payloads.",
+        "note": "Trusted: Lean kernel; transcription of src/model/mod.rs (Core/SepModel.lean) as validated by the stream; panics of the Rust code are explicit outcomes of the model, their unreachability for builder-made models is c16_args_by_name.",
+    },
 }
